@@ -108,6 +108,9 @@ def run_unit(args):
         def _on_alarm(signum, frame):
             raise core.HarnessError(f'work unit exceeded its wall-clock budget ({budget}s): inconclusive')
         budget = int(os.environ.get('VERIF_UNIT_TIMEOUT', '900' if tier == 'quick' else '7200'))
+        hb = REGISTRY[hname].engine_opts.get('unit_timeout') if hname in REGISTRY else None
+        if hb:
+            budget = min(budget, int(hb) * (1 if tier == 'quick' else 4))
         signal.signal(signal.SIGALRM, _on_alarm)
         signal.alarm(budget)
         from .ctx import SymCtx
@@ -116,6 +119,7 @@ def run_unit(args):
         h = REGISTRY[hname]
         opts = dict(rlimit=0, timeout_ms=4000, max_paths=200000, max_decisions=6000, div_check=True)
         opts.update(h.engine_opts)
+        opts.pop('unit_timeout', None)
         if tier == 'thorough':
             opts['rlimit'] = opts['rlimit'] * 4
             opts['timeout_ms'] = opts['timeout_ms'] * 4
